@@ -159,6 +159,9 @@ type Factory struct {
 	FailConnect bool
 	// FailChannelPrefix: consuming a physical channel whose name starts with it fails (a shard whose stream cannot be opened)
 	FailChannelPrefix string
+	// ConsumeGate, when set, is called at the start of every AsConsumer (= the mq round trip of CheckConnection) with the
+	// physical channels; it may block (a slow broker; scheduler gate of the C16 driver).  Default nil: no effect.
+	ConsumeGate func(channels []string)
 }
 
 type nopStream struct {
@@ -168,6 +171,9 @@ type nopStream struct {
 
 func (nopStream) Close() {}
 func (n nopStream) AsConsumer(ctx context.Context, channels []string, subName string, position common.SubscriptionInitialPosition) error {
+	if n.f != nil && n.f.ConsumeGate != nil {
+		n.f.ConsumeGate(channels)
+	}
 	if n.f != nil && n.f.FailChannelPrefix != "" {
 		for _, c := range channels {
 			if strings.HasPrefix(c, n.f.FailChannelPrefix) {
